@@ -240,6 +240,14 @@ INVALID_TEXT = {
     "joined_ignoreerrors": "- debug:\n    msg: never\n  ignoreerrors: true\n",
     "blank_when": "- debug:\n    msg: never\n  \"when \": true\n",
     "dotted_rash_dir": "- debug:\n    msg: never\n  rash.dir: x\n",
+    # values of task keywords that cannot be read (K53, K54: they used to be dropped - the task ran unconditionally / for real)
+    "when_list_with_null": "- command: \"sh -c 'echo kbad >> ROOT/log'\"\n  when: [false, ~]\n",
+    "when_mapping": "- command: \"sh -c 'echo kbad >> ROOT/log'\"\n  when: {a: b}\n",
+    "when_nested_list": "- command: \"sh -c 'echo kbad >> ROOT/log'\"\n  when: [[false]]\n",
+    "changed_when_list_with_null": "- command: \"sh -c 'echo kbad >> ROOT/log'\"\n  changed_when: [true, ~]\n",
+    "check_mode_yes": "- copy:\n    content: x\n    dest: ROOT/out/bad\n  check_mode: yes\n",
+    "check_mode_quoted_true": "- copy:\n    content: x\n    dest: ROOT/out/bad\n  check_mode: \"true\"\n",
+    "check_mode_number": "- copy:\n    content: x\n    dest: ROOT/out/bad\n  check_mode: 1\n",
     "sequence_task": "- [debug, x]\n",
     "null_task": "- ~\n",
 }
